@@ -35,7 +35,7 @@ type Walker struct {
 func NewWalker(w *core.World, opts gen.NameOpts, weights map[string]int) *Walker {
 	k := &Walker{W: w, R: w.Rng, Opts: opts, Weights: weights, Hostile: 10, MaxContent: 300}
 	k.Pool = gen.NameSet(k.R, opts)
-	k.BranchNames = []string{"main", "dev", "a", "ab", "b", "a.b", "a-b", "feat_1", "x2", "topic", "Main", "DEV", "zeta", "alpha"}
+	k.BranchNames = []string{"main", "dev", "a", "ab", "b", "a.b", "a-b", "feat_1", "x2", "topic", "Main", "DEV", "zeta", "alpha", "main.lock", "dev.lock", "a.lock", "m_", "HEAD"}
 	for a, wgt := range weights {
 		if wgt > 0 {
 			k.keys = append(k.keys, a)
